@@ -26,7 +26,7 @@ RULE = ('split_path: directed corpus (docstring examples, boundaries), complete 
         'enumeration of pairs of items of length <= 2 over {comma, quote, backslash, space, a, n} and triples of '
         'length <= 1, seeded lists of 1..5 items over printable ASCII, damaged texts per malformation type; '
         'distinct by text')
-REQUIRED_CLAUSES = ['path-must-accept', 'path-must-reject', 'path-min-gt-max', 'path-no-leading-slash',
+REQUIRED_CLAUSES = ['under-lazy-translation', 'path-keyword-call', 'path-must-accept', 'path-must-reject', 'path-min-gt-max', 'path-no-leading-slash',
                     'path-empty-leading-segment', 'path-trailing-slash', 'path-rest-with-last',
                     'path-none-padding', 'path-dont-care-shape', 'path-result-shape',
                     'commas-round-trip', 'commas-return-type', 'commas-must-reject', 'commas-dont-care']
@@ -145,7 +145,11 @@ def eval_path(ctx, case):
         if case.get('defaults'):    # call with the default arguments
             got = strutils.split_path(path)
         elif case.get('kw'):
-            got = strutils.split_path(path, minsegs=minsegs, maxsegs=maxsegs, rest_with_last=rest)
+            ctx.clause('path-keyword-call')
+            if (minsegs + (maxsegs or 0) + len(path)) % 2:
+                got = strutils.split_path(path=path, minsegs=minsegs, maxsegs=maxsegs, rest_with_last=rest)
+            else:
+                got = strutils.split_path(path, minsegs=minsegs, maxsegs=maxsegs, rest_with_last=rest)
         else:
             got = strutils.split_path(path, minsegs, maxsegs, rest)
         exc = None
@@ -295,6 +299,15 @@ def eval_commas(ctx, case):
 
 
 def evaluate(ctx, case):
+    if case.get('lazy_i18n'):
+        from vlib import envmodes
+        ctx.clause('under-lazy-translation')
+        with envmodes.lazy_i18n():
+            return _evaluate(ctx, case)
+    return _evaluate(ctx, case)
+
+
+def _evaluate(ctx, case):
     if case['kind'] == 'path':
         eval_path(ctx, case)
     else:
@@ -377,11 +390,22 @@ def run(ctx):
     def emit(case):
         nonlocal idx
         idx += 1
+        if idx % 5 == 0:
+            case = dict(case, lazy_i18n=True)
+        if idx % 3 == 0 and case['kind'] == 'path' and not case.get('defaults'):
+            case = dict(case, kw=True)          # documented parameter names given by keyword
         if ctx.mine(idx):
             ctx.sample(case['kind'] + '/' + (case.get('cls') or ''), case)
             evaluate(ctx, case)
 
+    nown = [0]
+
     def own(case):          # a case this worker generated for itself
+        nown[0] += 1
+        if nown[0] % 5 == 0:
+            case = dict(case, lazy_i18n=True)
+        if nown[0] % 3 == 0 and case['kind'] == 'path' and not case.get('defaults'):
+            case = dict(case, kw=True)
         ctx.sample(case['kind'] + '/' + (case.get('cls') or ''), case)
         evaluate(ctx, case)
 
